@@ -331,6 +331,29 @@ pub fn edge_variants(l: &Ledger, w: &StdWorld) -> Vec<Instruction> {
                 v.push(world::ix_decrease(p, &w.lp, 1, 0, 0, v2));
             }
         }
+        // caller bounds exactly at / one unit off the realised amounts, one token at a time (a bound test that joins the two
+        // tokens with the wrong connective, or is off by one on one side only, decides these differently)
+        let pr = p.at(l);
+        let to64 = |q: num_bigint::BigUint| q.to_string().parse::<u64>().unwrap_or(u64::MAX);
+        for v2 in [false, true] {
+            if !v2 && !v1 {
+                continue;
+            }
+            let liq = 1_000_003u128;
+            let (qa, qb, _) = exact_amounts(l, &pr, liq);
+            let (ia, ib) = (to64(qa.ceil()), to64(qb.ceil()));
+            for (ma, mb) in [(ia, ib), (ia.wrapping_sub(1), u64::MAX), (u64::MAX, ib.wrapping_sub(1)), (ia, u64::MAX), (u64::MAX, ib), (ia.saturating_add(1), ib.saturating_add(1))] {
+                v.push(world::ix_increase(p, &w.lp, liq, ma, mb, v2));
+            }
+            if cur > 1 {
+                let d = cur / 2 + 1;
+                let (qa, qb, _) = exact_amounts(l, &pr, d);
+                let (da, db) = (to64(qa.floor()), to64(qb.floor()));
+                for (ma, mb) in [(da, db), (da.saturating_add(1), 0), (0, db.saturating_add(1)), (da, 0), (0, db), (da.saturating_sub(1), db.saturating_sub(1))] {
+                    v.push(world::ix_decrease(p, &w.lp, d, ma, mb, v2));
+                }
+            }
+        }
         // wrong tick arrays: the lower/upper arrays swapped (when they differ) must fail identically
         if p.ta_lower() != p.ta_upper() {
             let mut ix = world::ix_increase(p, &w.lp, 1000, u64::MAX, u64::MAX, !v1);
